@@ -415,7 +415,7 @@ theorem colsOf_auto (p : Params) (st : State) (addr : Bytes) (amt : Int) (h : st
 as it was, or it computed the collateral amount, fixed the collateral inputs and ran `finish` -/
 theorem run_ok (p : Params) (st : State) (r : Result) (h : run p st = .ok r) :
     ((st.hasScripts = false ∨ st.retAddr = none) ∧ r = ⟨st.explicit, none, none⟩) ∨
-    (∃ addr amt, st.hasScripts = true ∧ st.retAddr = some addr ∧ collateralAmount p st.refScriptSize = some amt ∧
+    (∃ addr amt, st.hasScripts = true ∧ st.retAddr = some addr ∧ collateralAmount p st.refScriptSize st.feeBuffer = some amt ∧
       finish p.cpb amt st.threshold p.maxCollateralInputs addr (colsOf p st addr amt) = .ok r) := by
   unfold run at h
   split at h
@@ -451,8 +451,8 @@ deriving instance DecidableEq for Pyc.Output
 deriving instance DecidableEq for Utxo
 deriving instance DecidableEq for Result
 
-theorem collateralAmount_eq (p : Params) (ref amt : Int) (h : collateralAmount p ref = some amt) :
-    ∃ mf, maxTxFee p.fee ref = some mf ∧ amt = (mf * p.percent + 99) / 100 := by
+theorem collateralAmount_eq (p : Params) (ref buf amt : Int) (h : collateralAmount p ref buf = some amt) :
+    ∃ mf, maxTxFee p.fee ref = some mf ∧ amt = ((mf + buf) * p.percent + 99) / 100 := by
   unfold collateralAmount at h
   split at h
   · cases h
